@@ -68,8 +68,8 @@ Print Assumptions C14_control_blocks_checker.
 
 (* control-block variant, for every graph, every P and S and every supply of fresh
    assignment names: the new head has exactly the successors S and a table; a
-   predecessor keeps its arity, its back edges and every successor outside S in
-   place; every position that went into S now holds an assignment block of the
+   predecessor keeps its arity, its back edges, its kind (it is the old block
+   with the new successors: replace_jt) and every successor outside S in place; every position that went into S now holds an assignment block of the
    supply, which continues to the head and sets the control variable to a value
    the table sends to the arc's original target; no assignment block is shared,
    neither inside a predecessor (its successors stay distinct) nor between two
@@ -83,7 +83,7 @@ Theorem C14_control_blocks :
   exists tbl,
     efind g' new = Some (mkE Ss [] (EBranch cls var tbl)) /\
     (forall p, In p preds -> exists b b', efind g p = Some b /\ efind g' p = Some b' /\
-       length (e_jt b) = length (e_jt b') /\ e_be b' = e_be b /\ NoDup (e_jt b') /\
+       length (e_jt b) = length (e_jt b') /\ e_be b' = e_be b /\ replace_jt b (e_jt b') = Some b' /\ NoDup (e_jt b') /\
        forall k s t', nth_error (e_jt b) k = Some s -> nth_error (e_jt b') k = Some t' ->
          (~ In s Ss -> t' = s) /\
          (In s Ss -> In t' names /\
@@ -104,7 +104,7 @@ Theorem C14_control_blocks_any_targets :
   exists tbl,
     efind g' new = Some (mkE Ss [] (EBranch cls var tbl)) /\
     (forall p, In p preds -> exists b b', efind g p = Some b /\ efind g' p = Some b' /\
-       length (e_jt b) = length (e_jt b') /\ e_be b' = e_be b /\
+       length (e_jt b) = length (e_jt b') /\ e_be b' = e_be b /\ replace_jt b (e_jt b') = Some b' /\
        forall k s t', nth_error (e_jt b) k = Some s -> nth_error (e_jt b') k = Some t' ->
                       ArcOk g' new var tbl s t') /\
     (forall x, x <> new -> ~ In x preds -> ~ In x names -> efind g' x = efind g x).
